@@ -24,19 +24,28 @@
    Switches for the control configurations (the values of the pinned tree come first):
      HashSession  TRUE | FALSE    newHashAny binds the session hash
      HashId       TRUE | FALSE    newHashAny binds the message id
-     DedupMode    "peer+id" | "id" | "none"   key of server.dedup *)
+     DedupMode    "peer+id" | "id" | "none"   key of server.dedup
+
+   Known finding C13-relay-foreign-payload (named deviation, switched on by AllowRelay): the signed hash does not
+   bind the SENDER, so a member can re-send another member's completely signed payload for the same id under its own
+   transport identity and the callback is invoked, attributed to the relayer (action RelayForeignPayload).  With
+   AllowRelay = FALSE such a message is an ordinary FSend and its delivery counts for per-sender agreement
+   (AgreementRaw: the statement as written) -- which it breaks; with AllowRelay = TRUE it is recorded in `relay`
+   instead, and everything else must still hold. *)
 EXTENDS Integers, Sequences, FiniteSets, TLC
 CONSTANTS Sessions,      \* ceremony sessions (session hashes)
           Allowed,       \* message ids registered with RegisterMessageIDFuncs
-          HashSession, HashId, DedupMode
+          HashSession, HashId, DedupMode,
+          AllowRelay     \* the named deviation RelayForeignPayload is enabled
 
 VARIABLES cfg,        \* [n |-> cluster size, faulty |-> set of faulty members]
           dedup,      \* [honest m -> [session -> set of [req, id, pl]]]   server.dedup of m's component
           signed,     \* history: [honest m -> set of <<session, id, payload>>] everything m's key signed
           known,      \* signatures by honest members that the faulty members have seen
           raw,        \* history: [honest r -> [session -> set of [from, id, pl]]] callback invocations
+          relay,      \* history: the same, for invocations through the deviation RelayForeignPayload
           client      \* [honest h -> [session -> [act, id, pl, got]]] a running client.Broadcast
-vars == <<cfg, dedup, signed, known, raw, client>>
+vars == <<cfg, dedup, signed, known, raw, relay, client>>
 
 Members == 1..cfg.n
 Faulty == cfg.faulty
@@ -53,6 +62,7 @@ InitWith(c) ==
   /\ signed = [m \in (1..c.n) \ c.faulty |-> {}]
   /\ known = {}
   /\ raw = [m \in (1..c.n) \ c.faulty |-> [s \in Sessions |-> {}]]
+  /\ relay = [m \in (1..c.n) \ c.faulty |-> [s \in Sessions |-> {}]]
   /\ client = [m \in (1..c.n) \ c.faulty |-> [s \in Sessions |-> Idle]]
 
 ---------------------------------------------------------------------------------------------------
@@ -97,7 +107,7 @@ BStart(h, s, id, pl) ==
             /\ client' = [client EXCEPT ![h][s] = [act |-> TRUE, id |-> id, pl |-> pl, got |-> {Sig(h, s, id, pl)}]]
        ELSE /\ UNCHANGED signed
             /\ client' = [client EXCEPT ![h][s] = [act |-> TRUE, id |-> id, pl |-> pl, got |-> {}]]
-  /\ UNCHANGED <<cfg, dedup, known, raw>>
+  /\ UNCHANGED <<cfg, dedup, known, raw, relay>>
 \* the request of h's client is served by honest m
 HSig(h, s, m) ==
   LET c == client[h][s] IN
@@ -105,13 +115,13 @@ HSig(h, s, m) ==
   /\ ServeSig(m, s, h, c.id, c.pl)
   /\ client' = [client EXCEPT ![h][s].got =
                   IF SigOutcome(m, s, h, c.id, c.pl) = "ok" THEN @ \cup {Sig(m, s, c.id, c.pl)} ELSE @]
-  /\ UNCHANGED <<cfg, known, raw>>
+  /\ UNCHANGED <<cfg, known, raw, relay>>
 Forgeable(sig) == sig.by \notin Honest \/ sig \in known
 \* a faulty member answers the request of h's client with whatever it can produce
 FReply(h, s, f, sig) ==
   /\ h \in Honest /\ client[h][s].act /\ f \in Faulty /\ Forgeable(sig)
   /\ client' = [client EXCEPT ![h][s].got = @ \cup {sig}]
-  /\ UNCHANGED <<cfg, dedup, signed, known, raw>>
+  /\ UNCHANGED <<cfg, dedup, signed, known, raw, relay>>
 \* h's client sends its BCastMessage to honest r (only signatures it was given; order/completeness is the
 \* client's business: the receiver decides)
 HSend(h, s, r, sigs) ==
@@ -119,30 +129,44 @@ HSend(h, s, r, sigs) ==
   /\ h \in Honest /\ c.act /\ r \in Honest \ {h}
   /\ \A i \in DOMAIN sigs : sigs[i] \in c.got
   /\ Deliver(r, s, h, c.id, c.pl, sigs)
-  /\ UNCHANGED <<cfg, dedup, signed, known, client>>
+  /\ UNCHANGED <<cfg, dedup, signed, known, relay, client>>
 \* ... and to a faulty member, which thereby sees the signatures
 FRecv(h, s, f, sigs) ==
   LET c == client[h][s] IN
   /\ h \in Honest /\ c.act /\ f \in Faulty
   /\ \A i \in DOMAIN sigs : sigs[i] \in c.got
   /\ known' = known \cup {sigs[i] : i \in {j \in DOMAIN sigs : sigs[j].by \in Honest}}
-  /\ UNCHANGED <<cfg, dedup, signed, raw, client>>
+  /\ UNCHANGED <<cfg, dedup, signed, raw, relay, client>>
 BEnd(h, s) ==
   /\ h \in Honest /\ client[h][s].act
   /\ client' = [client EXCEPT ![h][s] = Idle]
-  /\ UNCHANGED <<cfg, dedup, signed, known, raw>>
+  /\ UNCHANGED <<cfg, dedup, signed, known, raw, relay>>
 
 (* Faulty member f talks to the handlers of honest members directly. *)
 FSig(f, m, s, id, pl) ==
   /\ f \in Faulty /\ m \in Honest
   /\ ServeSig(m, s, f, id, pl)
   /\ known' = IF SigOutcome(m, s, f, id, pl) = "ok" THEN known \cup {Sig(m, s, id, pl)} ELSE known
-  /\ UNCHANGED <<cfg, raw, client>>
+  /\ UNCHANGED <<cfg, raw, relay, client>>
+\* a verifying message of f whose payload is ANOTHER (honest) member's completely signed broadcast: every honest
+\* member signed it in that member's dedup slot; f re-sends it under its own transport identity
+IsRelay(f, s, id, pl, sigs) ==
+  /\ Verify(s, id, pl, sigs) /\ pl.origin \in Honest
+  /\ \A m \in Honest \ {pl.origin} : [req |-> pl.origin, id |-> id, pl |-> pl] \in dedup[m][s]
 FSend(f, r, s, id, pl, sigs) ==
   /\ f \in Faulty /\ r \in Honest
   /\ \A i \in DOMAIN sigs : Forgeable(sigs[i])
+  /\ ~(AllowRelay /\ IsRelay(f, s, id, pl, sigs))
   /\ Deliver(r, s, f, id, pl, sigs)
-  /\ UNCHANGED <<cfg, dedup, signed, known, client>>
+  /\ UNCHANGED <<cfg, dedup, signed, known, relay, client>>
+\* DEVIATION (known finding C13-relay-foreign-payload): the callback of r is invoked for it, attributed to f
+RelayForeignPayload(f, r, s, id, pl, sigs) ==
+  /\ AllowRelay
+  /\ f \in Faulty /\ r \in Honest
+  /\ \A i \in DOMAIN sigs : Forgeable(sigs[i])
+  /\ IsRelay(f, s, id, pl, sigs)
+  /\ relay' = [relay EXCEPT ![r][s] = @ \cup {[from |-> f, id |-> id, pl |-> pl]}]
+  /\ UNCHANGED <<cfg, dedup, signed, known, raw, client>>
 
 ---------------------------------------------------------------------------------------------------
 (* A repertoire of signature lists for a faulty sender (used by the exhaustive configs and by schedule
@@ -164,19 +188,26 @@ AttackLists(s, id, pl) ==
 (* Properties (C13). *)
 \* first sentence of the statement: a payload reaches the application only if EVERY honest member (the receiver
 \* included) signed exactly that payload for that id in that session (faulty members sign anything)
-AllSigned == \A r \in Honest : \A s \in Sessions : \A d \in raw[r][s] :
+Invoked(r, s) == raw[r][s] \cup relay[r][s]
+AllSigned == \A r \in Honest : \A s \in Sessions : \A d \in Invoked(r, s) :
                 \A m \in Honest : <<s, d.id, d.pl>> \in signed[m]
 \* only registered ids are delivered
-OnlyAllowed == \A r \in Honest : \A s \in Sessions : \A d \in raw[r][s] : d.id \in Allowed
-\* what the application accepts (callbacks as in the tree)
-Accepted(r, s) == {d \in raw[r][s] : CallbackAccepts(r, d.from, d.pl)}
-\* second sentence: no two members accept different payloads for one sender and id (per ceremony session)
-AgreementAccepted == \A s \in Sessions : \A r1, r2 \in Honest : \A d1 \in Accepted(r1, s), d2 \in Accepted(r2, s) :
-                        (d1.from = d2.from /\ d1.id = d2.id) => d1.pl = d2.pl
-\* the same over raw callback invocations: EXPECTED TO FAIL (a faulty member relays a foreign, completely
-\* signed payload under its own transport identity; signatures do not bind the sender)
+OnlyAllowed == \A r \in Honest : \A s \in Sessions : \A d \in Invoked(r, s) : d.id \in Allowed
+\* second sentence, as written: no two members deliver different payloads for one (transport) sender and id, per
+\* ceremony session.  VIOLATED on the pinned tree through RelayForeignPayload (with AllowRelay = FALSE the relayed
+\* deliveries are in `raw`); holds for everything else.
 AgreementRaw == \A s \in Sessions : \A r1, r2 \in Honest : \A d1 \in raw[r1][s], d2 \in raw[r2][s] :
                         (d1.from = d2.from /\ d1.id = d2.id) => d1.pl = d2.pl
+\* what the application accepts when its callback checks the origin tag (dkg/nodesigs.go, dkg/frostp2p.go do;
+\* dkg/pedersen/board.go handleNodePubKeyMessage does NOT: its payload has no origin tag)
+Accepted(r, s) == {d \in Invoked(r, s) : CallbackAccepts(r, d.from, d.pl)}
+\* the second sentence for such callbacks: holds even with relays
+AgreementAccepted == \A s \in Sessions : \A r1, r2 \in Honest : \A d1 \in Accepted(r1, s), d2 \in Accepted(r2, s) :
+                        (d1.from = d2.from /\ d1.id = d2.id) => d1.pl = d2.pl
+\* the deviation is exactly what its name says: a relayed payload carries another member's origin tag (and is
+\* therefore never accepted by a callback that checks it)
+RelayIsForeign == \A r \in Honest : \A s \in Sessions : \A d \in relay[r][s] :
+                        d.from \in Faulty /\ d.pl.origin # d.from /\ ~CallbackAccepts(r, d.from, d.pl)
 \* server.dedup: at most one payload per requesting peer and id; only checked payloads of registered ids
 DedupFunctional == \A m \in Honest : \A s \in Sessions : \A t1, t2 \in dedup[m][s] :
                         (t1.req = t2.req /\ t1.id = t2.id) => t1.pl = t2.pl
@@ -185,9 +216,11 @@ DedupChecked == \A m \in Honest : \A s \in Sessions : \A t \in dedup[m][s] : t.i
 KnownGenuine == \A g \in known : g.by \in Honest /\ <<g.sess, g.id, g.pl>> \in signed[g.by]
 \* a delivery attributed to an honest sender is that sender's own payload
 HonestOrigin == \A r \in Honest : \A s \in Sessions : \A d \in raw[r][s] : d.from \in Honest => d.pl.origin = d.from
-Safety == AllSigned /\ OnlyAllowed /\ AgreementAccepted /\ DedupFunctional /\ DedupChecked /\ KnownGenuine /\ HonestOrigin
+Safety == AllSigned /\ OnlyAllowed /\ AgreementRaw /\ AgreementAccepted /\ RelayIsForeign
+          /\ DedupFunctional /\ DedupChecked /\ KnownGenuine /\ HonestOrigin
 \* a slot of server.dedup is never released or overwritten, histories only grow
 Monotone == [][/\ \A m \in Honest : \A s \in Sessions : dedup[m][s] \subseteq dedup'[m][s] /\ raw[m][s] \subseteq raw'[m][s]
+                                                           /\ relay[m][s] \subseteq relay'[m][s]
                /\ \A m \in Honest : signed[m] \subseteq signed'[m]
                /\ known \subseteq known' /\ cfg' = cfg]_vars
 ====
